@@ -32,10 +32,10 @@ kinds = %r
 bad = 0
 for cont in (0, 1):
     for op in kinds:
-        for after in range(0, 14):
+        for after in range(0, 17):
             for persist in (0, 1):
                 ch = os.path.join(top, 'ch'); shutil.rmtree(ch, ignore_errors=True); os.makedirs(ch)
-                env = dict(os.environ, LD_PRELOAD=so, FAULTFS_OP=op, FAULTFS_AFTER=str(after), FAULTFS_PERSIST=str(persist), VERIF_SCRATCH_BASE=top)
+                env = dict(os.environ, LD_PRELOAD=so, FAULTFS_MATCH='rf@', FAULTFS_OP=op, FAULTFS_AFTER=str(after), FAULTFS_PERSIST=str(persist), VERIF_SCRATCH_BASE=top)
                 r = subprocess.run([sys.executable, prog, ch, str(cont)], env=env, stdout=subprocess.PIPE, stderr=subprocess.DEVNULL, text=True)
                 m = re.search(r'RETS \\[(.*)\\]', r.stdout)
                 if not m: continue          # the recorder died (e.g. fault during channel creation): nothing was acknowledged
